@@ -83,15 +83,20 @@ theorem checkPolicy_driver (b : Bus) (a p : Option ConnId) (m : Msg) : (checkPol
 
 theorem setPending_self (t : Tx) : t.setPending t.bus.pending = t := rfl
 
-theorem sendFromDriver_bus (t : Tx) (to : ConnId) (m : Msg) : (sendFromDriver t to m).bus = t.bus := by
-  unfold sendFromDriver
-  have g := checkPolicy_driver t.bus (some to) (some to) (stampDriver t.bus to m)
-  rcases h : checkPolicy t.bus none (some to) (some to) (stampDriver t.bus to m) with ⟨p, err⟩
+theorem sendStamped_bus (t : Tx) (to : ConnId) (m : Msg) : (sendStamped t to m).bus = t.bus := by
+  unfold sendStamped
+  have g := checkPolicy_driver t.bus (some to) (some to) m
+  rcases h : checkPolicy t.bus none (some to) (some to) m with ⟨p, err⟩
   rw [h] at g
   dsimp only at g
   subst g
-  simp only [h]
-  cases err <;> rfl
+  cases err with
+  | some e => dsimp only; rw [(captureError_frame _ _ _ _).1]; rfl
+  | none => rfl
+
+theorem sendFromDriver_bus (t : Tx) (to : ConnId) (m : Msg) : (sendFromDriver t to m).bus = t.bus := by
+  unfold sendFromDriver
+  rw [sendStamped_bus, (capture_frame _ _ _ _).1]
 
 theorem sendOne_driver_bus (t : Tx) (a : Option ConnId) (to : ConnId) (m : Msg) : (sendOne t none a to m).bus = t.bus := by
   unfold sendOne
@@ -100,10 +105,13 @@ theorem sendOne_driver_bus (t : Tx) (a : Option ConnId) (to : ConnId) (m : Msg) 
   rw [h] at g
   dsimp only at g
   subst g
-  simp only [h]
   cases err with
-  | some e => rfl
-  | none => dsimp only; split <;> rfl
+  | some e => dsimp only; rw [(captureError_frame _ _ _ _).1]; rfl
+  | none =>
+    dsimp only
+    split
+    · rw [(captureError_frame _ _ _ _).1]; rfl
+    · rfl
 
 theorem fold_bus {α : Type} (f : Tx → α → Tx) (hf : ∀ t a, (f t a).bus = t.bus) : ∀ (l : List α) (t : Tx), (l.foldl f t).bus = t.bus
   | [], _ => rfl
@@ -111,7 +119,8 @@ theorem fold_bus {α : Type} (f : Tx → α → Tx) (hf : ∀ t a, (f t a).bus =
 
 theorem sigOwnerChanged_bus (t : Tx) (n o w : Bytes) : (sigOwnerChanged t n o w).bus = t.bus := by
   unfold sigOwnerChanged dispatchMatches sendMatches
-  exact fold_bus _ (fun t r => sendOne_driver_bus t none r _) _ t
+  dsimp only
+  rw [fold_bus _ (fun t r => sendOne_driver_bus t none r _), (capture_frame _ _ _ _).1]
 
 theorem emitSig_bus (n : Bytes) (t : Tx) (s : Sig) : (emitSig n t s).bus = t.bus := by
   cases s with
@@ -652,6 +661,31 @@ theorem limitsInv_helloOk (t : Tx) (c : ConnId) (m : Msg) (hin : t.bus.isActive 
   simp only [hyc, beq_self_eq_true, if_true, hown, List.length_nil]
   exact ⟨by omega, by simp⟩
 
+theorem limitsInv_installMonitor (b : Bus) (c : ConnId) (rules : List MatchRule) (hi : LimitsInv b) :
+    LimitsInv (installMonitorRules c rules b) := by
+  refine limitsInv_map (b := b) _ rfl rfl rfl ?_ ?_ ?_ ?_ hi
+  · intro y; (try dsimp only); split <;> rfl
+  · intro y; (try dsimp only); split <;> rfl
+  · intro y; (try dsimp only); split <;> rfl
+  · intro y _ hok
+    (try dsimp only)
+    split
+    · exact hok
+    · exact hok
+
+theorem limitsInv_joinMonitors (b : Bus) (c : ConnId) (x : Conn) (rules : List MatchRule) (hi : LimitsInv b) :
+    LimitsInv (joinMonitors c x rules b) := by
+  have hg := limitsInv_gcRules b { x with monitorRules := rules } hi
+  refine limitsInv_map (b := gcRules b { x with monitorRules := rules }) _ rfl rfl rfl ?_ ?_ ?_ ?_ hg
+  · intro y; (try dsimp only); split <;> rfl
+  · intro y; (try dsimp only); split <;> rfl
+  · intro y; (try dsimp only); split <;> rfl
+  · intro y _ hok
+    (try dsimp only)
+    split
+    · exact ⟨Nat.zero_le _, hok.2⟩
+    · exact hok
+
 /-- the leaves of the generic induction, for the limits invariant -/
 theorem limits_leaves : Leaves (keeps LimitsInv) where
   refl := fun _ h => h
@@ -666,6 +700,8 @@ theorem limits_leaves : Leaves (keeps LimitsInv) where
   addRule := fun b c r hact hl h => limitsInv_addRule b c r hact hl h
   removeRule := fun b c r rs' hr h => limitsInv_removeRule b c r rs' hr h
   gcRules := fun b _ x _ h => limitsInv_gcRules b x h
+  installMonitor := fun b c rules h => limitsInv_installMonitor b c rules h
+  joinMonitors := fun b c x rules h => limitsInv_joinMonitors b c x rules h
   clearRules := fun b c h => limitsInv_clearRules b c h
   removeConn := fun b c h => limitsInv_removeConn b c h
   connect := fun b c uid gids canFd hc h => limitsInv_connect b c uid gids canFd hc h
